@@ -1,2 +1,103 @@
-(* C17 (placeholder while the proofs are being written) *)
-From YK Require Import Place.Spec.
+(* C17 — Placement puts applications only where rules and ACLs allow.
+   Property theorems only; the model is in Place/{Str,Acl,Rules,Placement}.v, the specification
+   (the predicates the theorems are stated with, which are also the oracles of the correspondence
+   run) in Place/Spec.v, the proofs in Place/*Proofs.v, Place/Final.v.
+   All statements are about the model of the REPAIRED code (pinned = false) and hold for every
+   hierarchy closed under parents (wf_tree), every rule list, every application; the *_pinned_refuted
+   theorems are witnesses found on the model of the pinned code (pinned = true) and replayed on it. *)
+From Coq Require Import List NArith Bool String.
+From YK Require Import Place.Str Place.Acl Place.Rules Place.Placement Place.Spec
+     Place.AclProofs Place.RulesProofs Place.MainProofs Place.Final.
+Import ListNotations.
+
+(* An accepted application is in a leaf queue that was not draining (Active when no queue is Stopped),
+   chosen by the first rule in configured order that yields a queue the application can use, admitted
+   by a submit or admin ACL of that queue or an ancestor; an existing queue leaves the hierarchy
+   unchanged, a new one was created below a non-leaf, non-draining queue as a chain of valid-named
+   dynamic queues carrying that queue's child template. *)
+Theorem placed_ok : forall w a p w',
+    wf_tree (w_tree w) = true -> submit false w a = (Accepted p, w') ->
+    exists a', convert_ugi a = Some a' /\ placed_ok_b w a' p w' = true.
+Proof. exact placed_ok_final. Qed.
+Print Assumptions placed_ok.
+
+(* the "first rule" clause spelled out *)
+Theorem placed_first_rule : forall w a p w',
+    wf_tree (w_tree w) = true -> add_application false w a = (Accepted p, w') ->
+    exists i r m n, nth_error (w_rules w) i = Some r /\ yield (w_tree w) a (w_rules w) i = RName m
+                    /\ admissible (w_tree w) a m = Some n /\ name_parts n = p
+                    /\ forall j, (j < i)%nat -> passes (w_tree w) a (w_rules w) j = true.
+Proof. exact placed_first_rule_final. Qed.
+Print Assumptions placed_first_rule.
+
+(* the four transcribed rule functions compute the generic rule specification, for every nesting *)
+Theorem rules_refine_spec : forall t a r, place_rule t a r = s_rule t a r.
+Proof. exact place_rule_spec. Qed.
+Print Assumptions rules_refine_spec.
+
+(* creation needs the create flag on every level of the rule chain that contributed *)
+Theorem created_only_with_create : forall t a r c n, In (c, n) (levels t a r) -> c || q_exists t n = true.
+Proof. exact levels_create. Qed.
+Print Assumptions created_only_with_create.
+
+(* the recursive Queue.CheckSubmitAccess is: some queue on the way to the root grants submit or admin
+   access and the recovery queue is not in between *)
+Theorem acl_check_is_ancestor_grant : forall t a q,
+    all_exist t (q_path q) -> check_submit t a q = acl_admitted t a (q_path q).
+Proof. exact check_submit_spec. Qed.
+Print Assumptions acl_check_is_ancestor_grant.
+
+Theorem acl_check_access : forall a u gs,
+    check_access a u gs = true <-> a_all a = true \/ In u (a_users a) \/ exists g, In g gs /\ In g (a_groups a).
+Proof. exact check_access_spec. Qed.
+Print Assumptions acl_check_access.
+
+(* The recovery queue is only ever used for force-created applications (and nothing is placed below it). *)
+Theorem recovery_only_forced : forall w a p w',
+    wf_tree (w_tree w) = true -> submit false w a = (Accepted p, w') ->
+    exists a', convert_ugi a = Some a' /\ recovery_only_forced_b a' p = true.
+Proof. exact recovery_only_forced_final. Qed.
+Print Assumptions recovery_only_forced.
+
+(* finding 16 on the pinned code (repaired by 2ecc725) *)
+Theorem recovery_only_forced_pinned_refuted :
+  exists w a p w', wf_tree (w_tree w) = true /\ add_application true w a = (Accepted p, w')
+                   /\ recovery_only_forced_b a p = false.
+Proof. exact Final.recovery_only_forced_pinned_refuted. Qed.
+Print Assumptions recovery_only_forced_pinned_refuted.
+
+Theorem recovery_parent_pinned_refuted :
+  exists w a p w', wf_tree (w_tree w) = true /\ add_application true w a = (Accepted p, w')
+                   /\ recovery_only_forced_b a p = false /\ q_is_leaf (w_tree w') s_recovery_full = false
+                   /\ q_exists (w_tree w') s_recovery_full = true.
+Proof. exact Final.recovery_parent_pinned_refuted. Qed.
+Print Assumptions recovery_parent_pinned_refuted.
+
+(* An application that no rule can place is rejected with "no placement rule matched"; nothing changes. *)
+Theorem unmatched_rejected : forall w a a',
+    convert_ugi a = Some a' -> unmatched_b w a' = true -> submit false w a = (Rejected NoMatch, w).
+Proof. exact unmatched_rejected_final. Qed.
+Print Assumptions unmatched_rejected.
+
+(* no submission panics (repaired by dba4ed6; witness for the pinned code below) *)
+Theorem no_crash : forall w a w', wf_tree (w_tree w) = true -> submit false w a <> (Crashed, w').
+Proof. exact no_crash_final. Qed.
+Print Assumptions no_crash.
+
+Theorem no_crash_pinned_refuted :
+  exists w a, wf_tree (w_tree w) = true /\ fst (add_application true w a) = Crashed.
+Proof. exact Final.no_crash_pinned_refuted. Qed.
+Print Assumptions no_crash_pinned_refuted.
+
+(* filter type in another letter case (repaired by 1b56bed) *)
+Theorem deny_filter_pinned_refuted :
+  let f := mkFConf (bs "Deny") [bs "bob"] [] in
+  allow_user (new_filter true [] f) (ex_app "") = true /\ allow_user (new_filter false [] f) (ex_app "") = false.
+Proof. exact Final.deny_filter_pinned_refuted. Qed.
+Print Assumptions deny_filter_pinned_refuted.
+
+(* the hypothesis of the theorems above is an invariant of application submission *)
+Theorem wf_preserved : forall w a o w',
+    wf_tree (w_tree w) = true -> submit false w a = (o, w') -> wf_tree (w_tree w') = true.
+Proof. exact wf_preserved_final. Qed.
+Print Assumptions wf_preserved.
